@@ -33,6 +33,7 @@ type Version struct {
 
 type ownerInfo struct {
 	Task, Op int
+	Handle   int
 	Kind     string
 	Seq      int
 }
@@ -67,6 +68,7 @@ type CallRec struct {
 	StaleAtStart     bool
 	Retry            bool
 	AttemptsBefore   int
+	ListChanges      int // versions of tables.list created by this call (independent of the model)
 	OpenDigest       string // digest of the view right after a successful open (porcupine read output)
 	TimeFaulted      bool // a time fault hit this task while the call was executing
 	tfBefore         int
@@ -84,6 +86,9 @@ type HandleState struct {
 	Auto    bool
 	Version int // version the handle was last seen at (-1 unknown)
 	Broken  bool // a previous refresh failed; reads may legitimately fail until reopened
+	Tr      *reftable.Addition // open Addition (between begin and commit/abort)
+	TrOp    int                // op instance that opened it
+	TrWritten []WrittenTable
 }
 
 type World struct {
@@ -291,7 +296,11 @@ func (w *World) onEvent(ev *simrt.Event) {
 	switch ev.Kind {
 	case "createx", "create", "tempfile":
 		if ok {
-			w.owner[ev.Path] = ownerInfo{Task: ev.Task, Op: ev.Op, Kind: ev.Kind, Seq: ev.Seq}
+			h := -1
+			if cr != nil {
+				h = cr.Handle
+			}
+			w.owner[ev.Path] = ownerInfo{Task: ev.Task, Op: ev.Op, Handle: h, Kind: ev.Kind, Seq: ev.Seq}
 		}
 	case "remove", "rename":
 		if ok {
@@ -351,6 +360,15 @@ func (w *World) checkLockTenure(ev *simrt.Event, cls string) {
 	o, has := w.owner[ev.Path]
 	if !has {
 		return
+	}
+	if o.Task == ev.Task && o.Op != ev.Op && o.Handle >= 0 && o.Handle < len(w.Handles) {
+		// the lock of an Addition that the same handle opened in an
+		// earlier call and is committing or abandoning now
+		if hs := w.Handles[o.Handle]; hs.TrOp == o.Op && hs.TrOp != 0 {
+			if cr := w.curCall[ev.Task]; cr != nil && cr.Handle == o.Handle {
+				return
+			}
+		}
 	}
 	if o.Task != ev.Task || o.Op != ev.Op {
 		kind := "?"
@@ -489,6 +507,7 @@ func (w *World) detectVersion(ev *simrt.Event) {
 	if cr != nil {
 		v.OpKind = cr.Kind
 		v.Handle = cr.Handle
+		cr.ListChanges++
 	}
 	w.Versions = append(w.Versions, v)
 	if len(names) > w.maxTables {
@@ -602,7 +621,7 @@ func allNew(ever map[string]bool, names []string) bool {
 
 func (w *World) modelAppend(prev, v *Version, cr *CallRec, ev *simrt.Event) {
 	added := v.Names[len(prev.Names):]
-	if cr == nil || (cr.Kind != OpAdd && cr.Kind != OpAddMulti) {
+	if cr == nil || (cr.Kind != OpAdd && cr.Kind != OpAddMulti && cr.Kind != OpCommit) {
 		w.violate("C04", "illegal-transition", "append-without-transaction/"+v.OpKind, fmt.Sprintf("append of %v by %s", added, ev.String()))
 		w.ModelOK = false
 		return
